@@ -209,7 +209,7 @@ def reset (m : Mach U) : Mach U :=
   let w := w.snapshot root true false
   let (root, w) := root.request { kind := .change, index := none } w
   let (root, w) := root.enter (w.snapshot root false false)
-  ({ m with root := root, w := w }).updateActivity
+  ({ m with root := root.clearMarks, w := w }).updateActivity
 
 /-- `RV_::save`: the activity bit, then `deepSaveActive`. -/
 def save (m : Mach U) : List Bool :=
